@@ -268,6 +268,26 @@ fn create_file_case(dir: &std::path::Path, name: &str, len: usize) -> Option<(&'
     None
 }
 
+/// Deep nesting goes through the recursive decoder: probe in subprocesses (a stack overflow aborts).
+fn nesting_probe(ctx: &Ctx) -> Vec<Value> {
+    let mut rows = vec![];
+    for kind in ["list", "dict"] {
+        for depth in [100usize, 1000, 10_000, 100_000] {
+            let r = crate::c16::run_probe("metainfo", kind, depth, true, 2048);
+            rows.push(json!({"kind": kind, "depth": depth, "result": format!("{:?}", r)}));
+            if let Err(status) = r {
+                ctx.violation(
+                    "deep-nesting-crashes-parser",
+                    format!("{} nested {} kill the process when parsed on a 2 MiB stack: {}", depth, kind, status),
+                    json!({"kind": "nest", "target": "metainfo", "shape": kind, "depth": depth, "terminated": true, "stack_kib": 2048}),
+                );
+                break;
+            }
+        }
+    }
+    rows
+}
+
 pub fn run(ctx: &Ctx) -> Outcome {
     // (a) totality
     let max_len = ctx.tier.pick(6, 7);
@@ -322,6 +342,7 @@ pub fn run(ctx: &Ctx) -> Outcome {
     o.set("create_file_cases", json!(created));
     let picks = ctx.seeded_pick(docs.len(), 4);
     o.set("samples", Value::Array(picks.iter().map(|i| json!({"doc": core::show(&docs[*i]), "accepted": res[*i].0})).collect()));
+    o.set("nesting_ladder", Value::Array(nesting_probe(ctx)));
     o.set("exhaustive", json!(true));
     o.assume("harness reading of a document = last occurrence of each key, malformed `files` entries skipped (as the repository's own tests demand), `path` taken as one string as this implementation does");
     o.assume("built with overflow-checks on, as cargo test / cargo run (dev profile) do; a wrapped total is also reported through the explicit comparison");
@@ -329,6 +350,9 @@ pub fn run(ctx: &Ctx) -> Outcome {
 }
 
 pub fn replay(_ctx: &Ctx, r: &Value) -> i32 {
+    if r["kind"] == "nest" {
+        return crate::c16::replay(_ctx, r);
+    }
     if r["kind"] == "create" {
         let dir = core::private_cwd("c17", "w");
         let res = create_file_case(&dir, r["name"].as_str().unwrap(), r["len"].as_u64().unwrap() as usize);
